@@ -48,9 +48,9 @@ Param Hist::genParam(const std::string& name, std::string* descr) {
     std::ostringstream d; d << "type=" << (type == 0 ? "int" : type == 1 ? "float" : "string") << " dims=" << (explicitDims ? dimsToStr(dims) : std::string("implicit")) << " n=" << prod << " desc=" << dl;
     try {
     if (type == 0) { std::vector<int> v; for (size_t i = 0; i < prod; ++i) v.push_back(rng.chance(15) ? (rng.chance(50) ? 32767 : -32768) : rng.range(-3000, 3000));
-        if (explicitDims) p.set(v, dims); else if (prod == 1 && rng.chance(50)) p.set(v[0]); else p.set(v); }
+        if (explicitDims) p.set(v, dims); else if (prod == 1 && rng.chance(50)) { if (v[0] >= 0 && rng.chance(40)) p.set(static_cast<size_t>(v[0])); else p.set(v[0]); } else p.set(v); }
     else if (type == 1) { std::vector<float> v; for (size_t i = 0; i < prod; ++i) v.push_back(bitsf(genFloatBits(rng, specialFloats)));
-        if (explicitDims) p.set(v, dims); else if (prod == 1 && rng.chance(50)) p.set(v[0]); else p.set(v); }
+        if (explicitDims) p.set(v, dims); else if (prod == 1 && rng.chance(50)) { if (rng.chance(40)) p.set(static_cast<double>(v[0])); else p.set(v[0]); } else p.set(v); }
     else { std::vector<std::string> v; bool wide = rng.chance(12); for (size_t i = 0; i < prod; ++i) { int l = rng.chance(15) ? 0 : rng.range(1, 12); if (wide && (i == 0 || rng.chance(10))) l = rng.range(120, 255); /* very uneven widths: long padding runs */ std::string s; for (int k = 0; k < l; ++k) s += (char)("ABCdef ghi_12"[rng.below(13)]); while (!s.empty() && s[s.size() - 1] == ' ') s[s.size() - 1] = 'z'; if (!s.empty() && rng.chance(6)) s[s.size() - 1] = "\t\n\r\v\f"[rng.below(5)]; /* a cell may END in white space other than a blank: only blanks are padding */ v.push_back(s); }
         if (explicitDims) p.set(v, dims); else if (prod == 1 && rng.chance(50)) p.set(v[0]); else p.set(v); }
     } catch (const std::exception& e) { Outcome oc = classify(e); log.viol("C09", "set/consistent_refused/" + oc.cls, "while building a parameter: " + d.str() + ": " + oc.what); p.set(1); }
